@@ -1,5 +1,6 @@
 #!/usr/bin/env python3
-"""Run the registered checks against a seeded breaking change, in a scratch worktree.
+"""Run the registered checks against a seeded breaking change (or, with --neutral, a behaviour-preserving
+change under neutral/<id>/, where the expected outcome is exit 0 and no VIOLATION line), in a scratch worktree.
 
 usage: seedtest.py <seeded dir> [Cxx ...]      e.g. tools/seedtest.py seeded/C10-1 C10 C12
 
@@ -20,7 +21,8 @@ def sh(cmd, **kw):
 def main():
     sd = os.path.abspath(sys.argv[1])
     meta = json.load(open(os.path.join(sd, "meta.json")))
-    props = sys.argv[2:] or [meta["property"]]
+    neutral = "--neutral" in sys.argv
+    props = [a for a in sys.argv[2:] if not a.startswith("--")] or [meta["property"]]
     tag = os.path.basename(sd).lower()
     wt = "/tmp/seed-wt-" + tag
     lean = "/var/tmp/seed-lean-" + tag
@@ -57,7 +59,7 @@ def main():
             res["checks"][p] = {"exit": rc, "violations": len(viol), "no_failing_input_found": any("no-failing-input-found" in l for l in viol),
                                 "first": first, "wall_s": round(time.time() - t0, 1)}
             print("%s on %s: %s (exit %d, %d VIOLATION lines%s) %s" % (
-                p, os.path.basename(sd), "caught" if rc == 1 and viol else "MISSED", rc, len(viol),
+                p, os.path.basename(sd), (("quiet" if rc == 0 and not viol else "ALARM") if neutral else ("caught" if rc == 1 and viol else "MISSED")), rc, len(viol),
                 ", no-failing-input-found" if res["checks"][p]["no_failing_input_found"] else "", first[:200]))
     finally:
         json.dump(res, open(os.path.join(sd, "result.json"), "w"), indent=1)
